@@ -228,13 +228,18 @@ Section Whole.
     cbn [skipn_N]. apply IH. exact (P_tail c r H).
   Qed.
 
+  (** the configuration in which the main loop stops: open code, or just inside a string expression *)
+  Definition EndCfg (s : st) (rs : rstate) : Prop :=
+    s_cp s = None /\ s_mnl s = 0 /\
+    (s_modes s = [MDefault] /\ s_pstat s = [rs_pending rs] \/ s_modes s = [MStringExpr true; MDefault]).
+
   Lemma loop_sim : forall m s rs f fr last acc_t acc_e,
     List.length (c_rest (s_cur s)) = m -> OC text s rs -> P (c_rest (s_cur s)) = true ->
     (m < F)%nat -> s_iters s + 2 * N.of_nat m <= limit -> (2 * m < f)%nat -> (m < fr)%nat ->
     map (tv bb) (w_toks (s_buf s)) = map rv acc_t -> map (ev bb) (s_errs s) = map rve acc_e ->
     exists s_end rs_end T E,
       run false (main_loop F msep limit f last) s = Done false s_end /\
-      s_aborted s_end = s_aborted s /\ s_iters s_end <= s_iters s + 2 * N.of_nat m /\
+      s_aborted s_end = s_aborted s /\ s_iters s_end <= s_iters s + 2 * N.of_nat m /\ EndCfg s_end rs_end /\
       reflex_loop fr (c_rest (s_cur s)) (cur_byte s + bb) rs acc_t acc_e = (rev T, rev E, rs_end) /\
       forall fz, exists s_fin,
         run false (finalize_lexing (S (S fz))) s_end = Done tt s_fin /\
@@ -250,7 +255,9 @@ Section Whole.
       destruct (oc_lines _ _ _ HOC) as [p Hp].
       exists s, rs, (mkRtok T_EOF CH_DEFAULT (cur_byte s + bb) PNone :: acc_t), acc_e.
       split; [apply main_loop_end; unfold peek; rewrite Hr; reflexivity|].
-      split; [reflexivity|]. split; [lia|]. split; [reflexivity|]. intros fz.
+      split; [reflexivity|]. split; [lia|].
+      split; [split; [exact (oc_cp _ _ _ HOC)|split; [exact (oc_mnl _ _ _ HOC)|left; split; [exact (oc_modes _ _ _ HOC)|exact (oc_pstat _ _ _ HOC)]]]|].
+      split; [reflexivity|]. intros fz.
       destruct (finalize_default_exact fz s p (oc_modes _ _ _ HOC) Hp) as (s2 & Hf0 & Htok2 & Ho2 & Hab2).
       exists s2. split; [exact Hf0|].
       split; [eexists _, _; split; [exact Htok2|reflexivity]|].
@@ -270,6 +277,9 @@ Section Whole.
         split; [exact R1|].
         split; [reflexivity|].
         split; [change (s_iters s1) with (s_iters s + 1); lia|].
+        split.
+        { split; [exact (oc_cp _ _ _ HOC)|]. split; [exact (oc_mnl _ _ _ HOC)|]. right.
+          change (s_modes s1) with (MStringExpr true :: s_modes s). rewrite (oc_modes _ _ _ HOC). reflexivity. }
         split.
         { cbn [reflex_loop]. rewrite lexeme_dquote_last. cbn [N.to_nat]. change (Pos.to_nat 1) with 1%nat. cbn [skipn_N firstn rev_append blen].
           change (utf8_len c_dquote) with 1. rewrite N.add_0_r. reflexivity. }
@@ -299,7 +309,7 @@ Section Whole.
             induction l as [|x l IHl]; intros [|j]; cbn [firstn skipn_N blen]; try lia. rewrite (IHl j). lia. }
           lia. }
         destruct (IH m' Hm' s' rs' (f - k)%nat fr last' (rev_append ts acc_t) (rev_append es acc_e) eq_refl HOC')
-          as (s_end & rs_end & T & E & Hrun & Habend & Hitend & Hrf & Hfin).
+          as (s_end & rs_end & T & E & Hrun & Habend & Hitend & Hcfg & Hrf & Hfin).
         * rewrite Hrest'. apply P_skipn. exact Hmf.
         * lia.
         * rewrite Hit'. lia.
@@ -307,7 +317,7 @@ Section Whole.
         * lia.
         * rewrite Htoks', Ht. rewrite rev_append_rev, map_app, map_rev. reflexivity.
         * rewrite Herrs', He. rewrite rev_append_rev, map_app, map_rev. reflexivity.
-        * exists s_end, rs_end, T, E. split; [exact Hrun|]. split; [rewrite Habend; exact Hab'|]. split; [rewrite Hit' in Hitend; lia|]. split.
+        * exists s_end, rs_end, T, E. split; [exact Hrun|]. split; [rewrite Habend; exact Hab'|]. split; [rewrite Hit' in Hitend; lia|]. split; [exact Hcfg|]. split.
           -- rewrite <- Hrf. rewrite Hrest', Hbyte. reflexivity.
           -- intros fz. destruct (Hfin fz) as (s_fin & Hf & Heof & Hte & Hee & Hlit & Habe).
              exists s_fin. split; [exact Hf|]. split; [exact Heof|]. split; [exact Hte|]. split; [exact Hee|]. split; [exact Hlit|].
@@ -344,14 +354,14 @@ Theorem lex_text_is_reflex text bb bc msep (P : list char -> bool) :
   map tv0 (b_toks (lr_buffer r)) = map rv T /\ map ev0 (lr_errors r) = map rve E /\
   b_lit (lr_buffer r) = rev (rs_lit rs) /\
   s_aborted (lr_end r) = false /\ s_loop_detected (lr_end r) = false /\
-  s_iters (lr_end r) <= 2 * len text.
+  s_iters (lr_end r) <= 2 * len text /\ EndCfg (lr_end r) rs.
 Proof.
   intros Ptail classes Hmf. cbv zeta. unfold lex_text. cbn [dbg Base.msep].
   set (n := List.length text).
   destruct (loop_sim text bb (S n) msep (8 * (blen text + bb) + 64) P Ptail classes n (init text) rs0
                      (8 * (4 * n) + 64 + 2 + 24)%nat (S n) (blen text + bb, [MDefault]) [] []
                      eq_refl (OC_init text eq_refl) Hmf ltac:(lia))
-    as (s1 & rs1 & T & E & Hrun & Hab1 & Hit1 & Hrf & Hfin).
+    as (s1 & rs1 & T & E & Hrun & Hab1 & Hit1 & Hcfg1 & Hrf & Hfin).
   - cbn [init s_iters]. assert (N.of_nat n <= blen text); [|lia].
     subst n. clear. induction text as [|c t IH]; [cbn; lia|]. cbn [List.length blen]. pose proof (utf8_len_pos c). lia.
   - lia.
@@ -363,7 +373,7 @@ Proof.
     change (c_rest (s_cur (init text))) with text in Hrf. fold n. rewrite Hrf. rewrite Hrun.
     destruct (Hfin (N.to_nat (s_nmodes s1))) as (s2 & Hf2 & (te & tr & Htok2 & Hte) & Ht2 & He2 & Hl2 & Hab2).
     rewrite Hf2. cbn [lr_outcome lr_state lr_end lr_buffer lr_errors].
-    split; [reflexivity|]. split; [rewrite Hab2; reflexivity|]. split; [|split; [|split; [|split; [|split]]]].
+    split; [reflexivity|]. split; [rewrite Hab2; reflexivity|]. split; [|split; [|split; [|split; [|split; [|split]]]]].
     + rewrite into_detached_toks, map_map. unfold detached_toks. rewrite Htok2. rewrite Hte.
       replace (tt_eqb T_EOF T_EOF) with true by reflexivity.
       rewrite (map_ext _ (tv bb) (fun t => tv0_shift bb bc t)).
@@ -374,4 +384,5 @@ Proof.
     + rewrite Hab1. reflexivity.
     + rewrite (run_flag_release _ _ _ _ Hrun). reflexivity.
     + exact Hit1.
+    + exact Hcfg1.
 Qed.
